@@ -361,6 +361,37 @@ func rewriteMapRange(fi *fileInfo, r *ast.RangeStmt, offOf func(token.Pos) int, 
 // TryLock loop that yields through verifsim.Blocked(); X.Do(f) on sync.Once
 // becomes verifsim.OnceDo. The synchronisation primitives themselves stay
 // real, so ThreadSanitizer still sees the happens-before edges they create.
+// syncRecv returns a Go expression for a pointer to the sync.X value a method is called on: the
+// operand itself, or the field of it the method is promoted from (a struct that embeds a
+// sync.RWMutex calls x.RLock()).
+func syncRecv(fi *fileInfo, sel *ast.SelectorExpr, info *types.Info, offOf func(token.Pos) int) (string, bool) {
+	x := string(fi.src[offOf(sel.X.Pos()):offOf(sel.X.End())])
+	tv, ok := info.Types[sel.X]
+	if !ok {
+		return "", false
+	}
+	typ := tv.Type
+	expr := "(" + x + ")"
+	if s, ok := info.Selections[sel]; ok {
+		idx := s.Index()
+		for _, i := range idx[:len(idx)-1] {
+			if p, ok := typ.Underlying().(*types.Pointer); ok {
+				typ = p.Elem()
+			}
+			st, ok := typ.Underlying().(*types.Struct)
+			if !ok || i >= st.NumFields() {
+				return "", false
+			}
+			expr += "." + st.Field(i).Name()
+			typ = st.Field(i).Type()
+		}
+	}
+	if _, isPtr := typ.Underlying().(*types.Pointer); isPtr {
+		return expr, true
+	}
+	return "&" + expr, true
+}
+
 func rewriteBlockingCall(fi *fileInfo, call *ast.CallExpr, info *types.Info, offOf func(token.Pos) int, n *int) {
 	sel, ok := call.Fun.(*ast.SelectorExpr)
 	if !ok {
@@ -392,13 +423,9 @@ func rewriteBlockingCall(fi *fileInfo, call *ast.CallExpr, info *types.Info, off
 		// through verifsim.RWLock / RWRLock, which keep sync.RWMutex's writer preference: while a
 		// Lock call waits, new RLock calls wait too (a recursive read lock deadlocks on the real
 		// thing as soon as a writer shows up in between; it must do so in the simulation)
-		tv, ok := info.Types[sel.X]
+		ptr, ok := syncRecv(fi, sel, info, offOf)
 		if !ok {
 			return
-		}
-		ptr := "&(" + x + ")"
-		if _, isPtr := tv.Type.Underlying().(*types.Pointer); isPtr {
-			ptr = "(" + x + ")"
 		}
 		*n++
 		fi.edits = append(fi.edits, edit{off: offOf(call.Pos()), end: offOf(call.End()), prio: 5,
@@ -407,13 +434,9 @@ func rewriteBlockingCall(fi *fileInfo, call *ast.CallExpr, info *types.Info, off
 		// X.Wait() -> verifsim.CondWait(X) etc.: a task that waits for another task's Signal must let
 		// that task run (sync.Cond is used through a pointer: NewCond returns one, and a Cond must
 		// not be copied)
-		tv, ok := info.Types[sel.X]
+		ptr, ok := syncRecv(fi, sel, info, offOf)
 		if !ok {
 			return
-		}
-		ptr := "&(" + x + ")"
-		if _, isPtr := tv.Type.Underlying().(*types.Pointer); isPtr {
-			ptr = "(" + x + ")"
 		}
 		*n++
 		fi.edits = append(fi.edits, edit{off: offOf(call.Pos()), end: offOf(call.End()), prio: 5,
@@ -422,13 +445,9 @@ func rewriteBlockingCall(fi *fileInfo, call *ast.CallExpr, info *types.Info, off
 		if len(call.Args) != 1 {
 			return
 		}
-		tv, ok := info.Types[sel.X]
+		ptr, ok := syncRecv(fi, sel, info, offOf)
 		if !ok {
 			return
-		}
-		ptr := "&(" + x + ")"
-		if _, isPtr := tv.Type.Underlying().(*types.Pointer); isPtr {
-			ptr = "(" + x + ")"
 		}
 		*n++
 		// only the callee is replaced ("X.Do(" -> "verifsim.OnceDo(&X, "): the argument stays in
